@@ -145,24 +145,26 @@ class LearnerGet(Contract):
 @contract(SK + "sklearn_base_transform_learner.py::SkBaseTransformLearner.set_params", "C01")
 class LearnerSet(Contract):
     """one call with one advertised key (of each kind), or with the whole deep get_params of another instance"""
-    variants = ["model", "method", "extra", "nested", "model+method", "roundtrip"]
+    variants = ["model", "method", "extra", "nested", "model+method", "roundtrip", "model+same-method", "roundtrip-same-method", "same-method"]
     max_paths = 20000
 
     def setup(self, E, v):
         s = _learner(E)
         values = {}
         other = None
-        if v in ("model", "model+method"):
+        if v in ("model", "model+method", "model+same-method"):
             values["model"] = generic_model(E, "newmodel")
         if v in ("method", "model+method"):
             values["method"] = "predict_proba"
+        if v in ("model+same-method", "same-method"):
+            values["method"] = "predict"          # the method the instance already has: it still has to be bound to the NEW model
         if v == "extra":
             values["extra"] = val(E, "newextra")
         if v == "nested":
             k = s.fields["model"].fields["$keys"][0]
             values[dicts.SymKey(z3.Concat(z3.StringVal("model__"), k))] = val(E, "newnested")
-        if v == "roundtrip":
-            other = _learner(E, method="predict_proba")
+        if v in ("roundtrip", "roundtrip-same-method"):
+            other = _learner(E, method="predict_proba" if v == "roundtrip" else "predict")
             values = E.call_method(other, "get_params", [True], {}, None)
         return dict(self=s, values=values, _given=dict(values), _v=v, _other=other)
 
@@ -174,10 +176,10 @@ class LearnerSet(Contract):
         after = E.call_method(s, "get_params", [True], {}, None)
         out = {"returns_self": z3.BoolVal(res is s)}
         out["every_given_key_is_reported"] = z3.And(*[same(lookup(E, after, k), v) for k, v in dicts.items(a._given)])
-        if a._v == "roundtrip":
+        if a._v in ("roundtrip", "roundtrip-same-method"):
             theirs = E.call_method(a._other, "get_params", [True], {}, None)
             out["reports_the_same_parameters_as_the_source_instance"] = dict_eq_on(E, after, theirs)
-        elif a._v in ("method", "extra", "nested"):
+        elif a._v in ("method", "extra", "nested", "same-method"):
             changed = list(dicts.keys(a._given))
             out["other_keys_unchanged_and_still_advertised"] = dict_eq_on(E, after, old["before"], except_keys=changed)
         else:
@@ -488,6 +490,15 @@ def _make_ctor_contract(relpath, cls):
                 stored[n] = s.fields[n]
                 if isinstance(v, Obj):
                     out["object_given_for_%s_is_kept" % n] = z3.BoolVal(s.fields[n] is v)
+                elif is_sym(v):
+                    # (a default such as None or "dummy" may stand for an object the constructor fills in: the rebuilt-from-get_params
+                    # clauses below cover that; the clause is for a value the user chose - here the symbolic numbers of variant "objects")
+                    # scikit-learn's clone refuses (RuntimeError) a constructor that stores anything but the object it was given:
+                    # no conversion, not even one that keeps the value (float(numpy.float64), int -> float ...)
+                    st = s.fields[n]
+                    same = st is v or (is_sym(v) and is_sym(st) and z3.eq(st, v)) or (
+                        not is_sym(v) and not is_sym(st) and type(st) is type(v) and not isinstance(v, (list, dict)) and st == v)
+                    out["value_given_for_%s_is_stored_unconverted" % n] = z3.BoolVal(bool(same))
             if len(stored) == len(a._vals):
                 # scikit-learn's clone: klass(**get_params()) must store exactly what it is given
                 s2 = E.instantiate(cls, [], dict(stored), None)
